@@ -30,9 +30,9 @@ func (it Item) String() string {
 
 // event is one scripted chain event.
 type event struct {
-	idx     int
-	item    Item
-	ntfn    blockntfns.BlockNtfn
+	idx      int
+	item     Item
+	ntfn     blockntfns.BlockNtfn
 	preTick  int64 // logical time at which the emitter began trying to hand it over
 	postTick int64 // logical time shortly after the hand-over completed
 }
